@@ -130,5 +130,16 @@ func (c *Client) VerifC18Subscribed() map[[33]byte][32]byte {
 	return res
 }
 
+// VerifC18Connecting reports whether a connectServerStream call is in
+// progress (it holds streamMutex for its whole retry loop, waits included) or
+// a message is being sent.
+func (c *Client) VerifC18Connecting() bool {
+	if c.streamMutex.TryLock() {
+		c.streamMutex.Unlock()
+		return false
+	}
+	return true
+}
+
 // VerifC18Switch exposes the client's error channel switch.
 func (c *Client) VerifC18Switch() *ErrChanSwitch { return c.errChanSwitch }
